@@ -146,7 +146,7 @@ func c05List(c *hx.Ctx, sc *zipScratch, m module.Version, files []gen.ZipFileSpe
 	}
 }
 
-// c05ZipSizeProbe (thorough tier only): one incompressible file of exactly MaxZipFile bytes.
+// c05ZipSizeProbe (every run): one incompressible file of exactly MaxZipFile bytes.
 // CheckFiles accepts it, Create succeeds, but the encoded archive is larger than MaxZipFile, so
 // CheckZip and Unzip reject what Create produced (Create never looks at the encoded size).
 // The bytes are counted, not stored; CheckZip is run on a sparse file of the same size (it
@@ -160,7 +160,24 @@ type c05BigFile struct{ size int64 }
 func (f c05BigFile) Path() string                { return "data.bin" }
 func (f c05BigFile) Lstat() (os.FileInfo, error) { return c05BigInfo{f}, nil }
 func (f c05BigFile) Open() (io.ReadCloser, error) {
-	return io.NopCloser(io.LimitReader(rand.New(rand.NewSource(1)), f.size)), nil
+	return io.NopCloser(io.LimitReader(&c05Repeat{}, f.size)), nil
+}
+
+// c05Repeat yields a 1 MiB pseudo-random block over and over: the period is far above the
+// 32 KiB window of deflate, so the stream is as incompressible as fresh random data.
+type c05Repeat struct {
+	block []byte
+	pos   int
+}
+
+func (r *c05Repeat) Read(b []byte) (int, error) {
+	if r.block == nil {
+		r.block = make([]byte, 1<<20)
+		rand.New(rand.NewSource(1)).Read(r.block)
+	}
+	n := copy(b, r.block[r.pos:])
+	r.pos = (r.pos + n) % len(r.block)
+	return n, nil
 }
 
 type c05BigInfo struct{ f c05BigFile }
@@ -200,9 +217,11 @@ func c05ZipSizeProbe(sc *zipScratch) string {
 func runC05(c *hx.Ctx) {
 	r := c.Rng
 	sc := newZipScratch(c.Out)
-	if c.Tier == "thorough" {
+	{
+		// known finding K8, probed on every run (both tiers)
 		msg := c05ZipSizeProbe(sc)
 		c.Check("create-then-checkzip-ok", msg == "", "C05-zipsize", zipIn{Op: "zipsize"}, msg)
+		c.Count("zipsize-probe")
 	}
 	for i := 0; i < c.N(3500); i++ {
 		m := gen.ZipModuleVersion(r)
